@@ -12,7 +12,7 @@
 //!   adv <n> <byte>      fill min(n, remaining) bytes of uninitialized_mut(), then b.advance(n)
 //!   rem                 b.remaining()
 //!   init | drop         the closure returns b.initialized() / returns without using the view
-//!   setr <reader>       slice <hex> | rep <byte> | empty | take <n> R | chain R R | bufr <cap> R | liar <n> <byte> | fail <byte>
+//!   setr <reader>       file <hex> (a real temp file) | slice <hex> | rep <byte> | empty | take <n> R | chain R R | bufr <cap> R | liar <n> <byte> | fail <byte>
 //!   read [c1 [c2]]      reader.read_buffer(x.cap_at(c1).cap_at(c2))
 //!   hash <kind> <cap> <oldhex> <L> / op / op …   all op sequences of length L over the alphabet
 //!
@@ -52,6 +52,7 @@ enum RdrSpec {
     Liar(usize, u8),
     Fail(u8),
     BufR(usize, Box<RdrSpec>),
+    File(Vec<u8>),
 }
 
 #[derive(Clone, Debug)]
@@ -90,6 +91,7 @@ fn parse_rdr<'a>(fuel: usize, t: &'a [&'a str]) -> Option<(RdrSpec, &'a [&'a str
     }
     match t[0] {
         "slice" if t.len() >= 2 => Some((RdrSpec::Slice(parse_hex(t[1])?), &t[2..])),
+        "file" if t.len() >= 2 => Some((RdrSpec::File(parse_hex(t[1])?), &t[2..])),
         "rep" if t.len() >= 2 => Some((RdrSpec::Rep(parse_byte(t[1])?), &t[2..])),
         "empty" => Some((RdrSpec::Empty, &t[1..])),
         "liar" if t.len() >= 3 => Some((RdrSpec::Liar(parse_usize(t[1])?, parse_byte(t[2])?), &t[3..])),
@@ -159,14 +161,39 @@ enum AnyRdr {
     Take(io::Take<Box<AnyRdr>>),
     Chain(io::Chain<Box<AnyRdr>, Box<AnyRdr>>),
     BufR(io::BufReader<Box<AnyRdr>>),
+    /// a real file (unlinked temp file) with its contents and the position expected by the oracle
+    File(std::fs::File, Vec<u8>, usize),
+    /// `BufReader<File>` / `Take<File>`: the concrete std types the library marks itself
+    BufFile(io::BufReader<std::fs::File>),
+    TakeFile(io::Take<std::fs::File>),
     /// fills the whole buffer and claims to have read `.0` bytes
     Liar(usize, u8),
     /// fills the whole buffer and fails
     Fail(u8),
 }
 
+/// a regular file holding `data`, positioned at its start; the name is removed at once
+fn temp_file(data: &[u8]) -> std::fs::File {
+    use std::sync::atomic::{AtomicU64, Ordering};
+    static SEQ: AtomicU64 = AtomicU64::new(0);
+    let p = std::env::temp_dir().join(format!("tw-buffer-{}-{}.bin", std::process::id(), SEQ.fetch_add(1, Ordering::SeqCst)));
+    std::fs::write(&p, data).expect("write temp file");
+    let f = std::fs::File::open(&p).expect("open temp file");
+    let _ = std::fs::remove_file(&p);
+    f
+}
+
 fn build_rdr(s: &RdrSpec) -> AnyRdr {
     match s {
+        RdrSpec::File(d) => AnyRdr::File(temp_file(d), d.clone(), 0),
+        RdrSpec::BufR(n, r) if matches!(**r, RdrSpec::File(_)) => match &**r {
+            RdrSpec::File(d) => AnyRdr::BufFile(io::BufReader::with_capacity(*n, temp_file(d))),
+            _ => unreachable!(),
+        },
+        RdrSpec::Take(n, r) if matches!(**r, RdrSpec::File(_)) => match &**r {
+            RdrSpec::File(d) => AnyRdr::TakeFile(temp_file(d).take(*n as u64)),
+            _ => unreachable!(),
+        },
         RdrSpec::Slice(d) => AnyRdr::Slice(d.clone(), 0),
         RdrSpec::Rep(b) => AnyRdr::Rep(io::repeat(*b)),
         RdrSpec::Empty => AnyRdr::Empty(io::empty()),
@@ -202,6 +229,13 @@ impl Read for AnyRdr {
             AnyRdr::Take(r) => r.read(buf),
             AnyRdr::Chain(r) => r.read(buf),
             AnyRdr::BufR(r) => r.read(buf),
+            AnyRdr::File(f, _, p) => {
+                let n = f.read(buf)?;
+                *p += n;
+                Ok(n)
+            }
+            AnyRdr::BufFile(r) => r.read(buf),
+            AnyRdr::TakeFile(r) => r.read(buf),
             AnyRdr::Liar(c, f) => {
                 LIAR_CALLED.with(|l| l.set(true));
                 for b in buf.iter_mut() {
@@ -407,6 +441,7 @@ fn read_on<'d, B: Buffer<'d>>(buf: B, caps: &[usize], cx: &mut Cx, avail: usize)
             _ => None,
         },
         AnyRdr::Empty(_) => Some(vec![]),
+        AnyRdr::File(_, d, p) => Some(d[*p..(*p + room.min(d.len() - *p))].to_vec()),
         _ => None,
     };
     // the library's own marker impls for `&[u8]`, `Repeat`, `Empty`; the wrapper for the rest
@@ -419,6 +454,16 @@ fn read_on<'d, B: Buffer<'d>>(buf: B, caps: &[usize], cx: &mut Cx, avail: usize)
         }
         AnyRdr::Rep(r) => read_caps(r, buf, caps),
         AnyRdr::Empty(r) => read_caps(r, buf, caps),
+        // `fs::File`, `&fs::File`, `BufReader<File>`, `Take<File>`: the library's own marker impls
+        AnyRdr::File(f, _, p) => {
+            let r = if *p % 2 == 0 { read_caps(f, buf, caps) } else { read_caps(&mut &*f, buf, caps) };
+            if let Ok(s) = &r {
+                *p += s.len();
+            }
+            r
+        }
+        AnyRdr::BufFile(r) => read_caps(r, buf, caps),
+        AnyRdr::TakeFile(r) => read_caps(r, buf, caps),
         other => read_caps(other, buf, caps),
     };
     cx.phase = Phase::Idle;
@@ -1321,9 +1366,18 @@ fn new_line(out: &mut dyn Write, kind: &str, cap: usize, len: usize) {
 fn rdr_str(r: &mut Rng, depth: usize) -> String {
     let k = if depth >= 2 { r.below(5) } else { r.below(9) };
     match k {
-        0 | 1 => {
+        0 => {
             let n = r.below(12) as usize;
             format!("slice {}", to_hex(&r.bytes(n)))
+        }
+        1 => {
+            let n = r.below(12) as usize;
+            let f = format!("file {}", to_hex(&r.bytes(n)));
+            match r.below(3) {
+                0 => f,
+                1 => format!("bufr {} {}", r.below(6), f),
+                _ => format!("take {} {}", r.below(9), f),
+            }
         }
         2 => format!("rep {:02x}", r.below(256)),
         3 => "empty".to_string(),
@@ -1528,6 +1582,9 @@ fn scripted(out: &mut dyn Write, kind: &str, cap: usize, len: usize, lite: bool)
     s(&[l("setr empty"), l("read"), l("open"), l("read"), l("setr take 3 rep 09"), l("read"), l("read"), l("init")]);
     s(&[l("setr chain slice 0102 fail 0f"), l("open"), w(1, 0x31), l("read"), l("read"), l("read"), w(1, 0x32), l("init")]);
     s(&[l("setr chain slice 01 chain empty take 2 rep 05"), l("read 1"), l("read"), l("read"), l("read")]);
+    s(&[l("setr file 0102030405"), l("read"), l("read"), l("read 1"), l("read"), l("open"), l("read"), l("init")]);
+    s(&[l("setr bufr 3 file 0102030405060708"), l("read 1"), l("read"), l("read 2"), l("read"), l("read")]);
+    s(&[l("setr take 3 file 0102030405"), l("read 2"), l("read"), l("read"), l("setr file -"), l("read")]);
     s(&[l("setr bufr 3 slice 0102030405060708"), l("read 1"), l("read"), l("read 2"), l("read"), l("read")]);
     s(&[l("setr bufr 2 chain slice 010203 fail 0f"), l("open"), l("read 1"), l("read 1"), l("read"), l("read"), l("init")]);
     s(&[l("setr bufr 0 rep 07"), l("read 2"), l("setr take 3 bufr 4 rep 08"), l("read 2"), l("read")]);
@@ -1562,7 +1619,7 @@ fn alphabet(kind: usize, room: usize) -> Vec<String> {
             l("setr slice 31323334"),
             l("setr take 3 rep 41"),
             l("setr chain slice 51 fail 5f"),
-            l("setr bufr 2 slice 818283"),
+            l("setr bufr 2 file 818283"),
             l("read"),
             l("read 1"),
             l("open"),
@@ -1715,7 +1772,7 @@ impl D {
             }
         }
         // 3. random sessions
-        let (n, nops) = if miri { (40, 12) } else if thorough { (60000, 30) } else { (1500, 24) };
+        let (n, nops) = if miri { (30, 12) } else if thorough { (60000, 30) } else { (1500, 24) };
         for i in 0..n {
             let max_cap = if i % 4 == 0 { 32 } else { 6 };
             let k = 4 + r.below(nops as u64) as usize;
